@@ -48,9 +48,10 @@ MANIFEST = dict(
          "evaluating the identities and an independent count with a Python oracle",
     design_ref="DESIGN.md §5 C12",
     note="trusted: Lean kernel, axioms ⊆ {propext, Classical.choice, Quot.sound}; hand-written model; htslib/pysam parsing; "
-         "MixedPhasingError / PloidyError (consistency over all samples) are outside the model, inputs are of one ploidy and one "
-         "phasing kind per chromosome; medians, averages and fractions are only compared with the model (recomputed from its "
-         "sorted lists); the float comparison in n50 is modelled over the integers",
+         "MixedPhasingError / PloidyError / malformed HP over all samples are modelled by Model/C12File.lean on top of C09's "
+         "whole-file reader and compared through c12.file on multi-sample files (the main stream has one ploidy and one phasing "
+         "kind per chromosome); medians, averages and fractions are not modelled in Lean (recomputed from the model's sorted "
+         "lists and, independently, from the file); the float comparison in n50 is modelled over the integers",
     technique="Lean 4 model + counting/partition lemmas + invariant proof of the splitting loop + CLI differential run with oracle",
 )
 ASSUMPTIONS = [
@@ -200,7 +201,62 @@ def spec_chrom(case, chrom):
             "phased": sum(len(v) for v in big.values()), "singletons": sum(1 for v in sets.values() if len(v) == 1),
             "blocks": len(big), "phased_snvs": sum(s for v in big.values() for _, s in v),
             "block_list": sorted((k, min(p for p, _ in v) + 1, max(p for p, _ in v) + 1, len(v)) for k, v in sets.items()),
-            "union_span": union, "gtf": runs}
+            "union_span": union, "gtf": runs, "sizes": sorted(len(v) for v in big.values()),
+            "lengths": spec_piece_lengths([sorted(p for p, _ in v) for v in big.values()])}
+
+
+def spec_piece_lengths(sets):
+    """independent: the lengths of the non-overlapping pieces of the phase sets (sorted position lists, >= 2 positions each)
+    of ONE chromosome.  Going from left to right: a set that reaches into the next one (by leftmost position) is cut down to
+    its positions before the start of that set (a piece if >= 2 positions remain) and its positions after the end of that set
+    (which stay in play as a set of their own if >= 2 remain)."""
+    todo = sorted(sets)
+    out = []
+    while todo:
+        cur, todo = todo[0], todo[1:]
+        if todo and cur[-1] > todo[0][0]:
+            nxt = todo[0]
+            before = [p for p in cur if p < nxt[0]]
+            after = [p for p in cur if p > nxt[-1]]
+            if len(after) > 1:
+                todo = sorted(todo + [after])
+            cur = before
+        if len(cur) > 1:
+            out.append(cur[-1] - cur[0])
+    return sorted(out)
+
+
+def spec_median(l):
+    n = len(l)
+    return l[n // 2] if n % 2 else (l[n // 2 - 1] + l[n // 2]) / 2
+
+
+def spec_columns(counts, sizes, lengths):
+    """independent: every numeric column of a row (except block_n50) from the integer counts, the sorted sizes of the phase
+    sets with >= 2 variants and the sorted lengths of their non-overlapping pieces"""
+    nan = float("nan")
+    e = {k: counts[k] for k in ("variants", "unphased", "singletons", "heterozygous_variants", "heterozygous_snvs")}
+    if sizes:
+        e.update(phased=sum(sizes), blocks=len(sizes), phased_snvs=counts["phased_snvs"],
+                 variant_per_block_median=spec_median(sizes), variant_per_block_avg=sum(sizes) / len(sizes),
+                 variant_per_block_min=min(sizes), variant_per_block_max=max(sizes), variant_per_block_sum=sum(sizes),
+                 phased_fraction=sum(sizes) / counts["heterozygous_variants"] if counts["heterozygous_variants"] else nan,
+                 phased_snvs_fraction=counts["phased_snvs"] / counts["heterozygous_snvs"] if counts["heterozygous_snvs"] else nan)
+        if lengths:
+            e.update(bp_per_block_median=spec_median(lengths), bp_per_block_avg=sum(lengths) / len(lengths),
+                     bp_per_block_min=min(lengths), bp_per_block_max=max(lengths), bp_per_block_sum=sum(lengths))
+    else:
+        e.update(phased=0, blocks=0, phased_snvs=0, variant_per_block_median=nan, variant_per_block_avg=nan,
+                 variant_per_block_min=0, variant_per_block_max=0, variant_per_block_sum=0, bp_per_block_median=nan,
+                 bp_per_block_avg=nan, bp_per_block_min=0, bp_per_block_max=0, bp_per_block_sum=0, phased_fraction=0.0,
+                 phased_snvs_fraction=0.0)
+    return e
+
+
+def column_key(k, all_row):
+    group = "lengths" if k.startswith("bp_per_block") else "sizes" if k.startswith("variant_per_block") else \
+        "fractions" if k.endswith("fraction") else "counts"
+    return ("all-row-" if all_row else "row-") + group
 
 
 def parse_tsv(path):
@@ -321,8 +377,11 @@ def parse_stdout(text):
 def run(ctx):
     wd = ctx.workdir()
     try:
+        if ctx.replay and json.load(open(ctx.replay))["case"].get("file_stats"):
+            return file_cases(ctx, wd, [json.load(open(ctx.replay))["case"]])
         _run(ctx, wd)
         if not ctx.replay:
+            file_cases(ctx, wd)
             functions(ctx)
     finally:
         shutil.rmtree(wd, ignore_errors=True)
@@ -339,6 +398,7 @@ def _run(ctx, wd):
         n = (56 if ctx.quick else 500) * ctx.scale
         for i in range(n):
             cases.append(G.gen_case(rng, scale=1 if ctx.quick else rng.choice([1, 2, 4]), exotic=(i % 2 == 1), boundary=(i % 4 >= 2)))
+            ctx.dist("twin_chromosomes", ",".join(sorted({m for _, m in cases[-1]["twins"].values()})) or "none")
 
     # input files (pysam.tabix_index is not known to be thread-safe: sequentially)
     paths = []
@@ -506,6 +566,10 @@ def judge(ctx, case, res):
             ctx.dist("block_n50", "nan" if r["block_n50"] == "nan" else ("0" if float(r["block_n50"]) == 0 else "positive"))
         if v["bp_per_block_sum"] > s["union_span"] and not degenerate(c):
             fail(f"{c}: sum of block lengths {v['bp_per_block_sum']} exceeds the covered span {s['union_span']}", "length-sum-exceeds-span")
+        if not degenerate(c):
+            for k, want in spec_columns(s, s["sizes"], s["lengths"]).items():
+                if column_key(k, False) != "row-counts" and not same(fnum(r[k]), float(want)):
+                    fail(f"{c}: {k} = {r[k]}, computed independently from the phase sets of the file: {want}", column_key(k, False))
     if len(set(reported)) >= 2 and not all_rows:
         fail("no ALL row although several chromosomes were processed", "all-row-missing")
     if all_rows:
@@ -513,6 +577,20 @@ def judge(ctx, case, res):
             tot = sum(int(r[k]) for r in rows_list)
             if int(all_rows[0][k]) != tot:
                 fail(f"ALL.{k} = {all_rows[0][k]} != sum of the chromosome rows {tot}", "all-row-not-sum")
+    # the ALL row = the same computation over the whole file: every numeric column (block_n50 is compared with the model), from
+    # the counts, the phase-set sizes and the piece lengths of all reported chromosomes together
+    if all_rows and reported == expected and len(set(reported)) == len(reported) and not any(degenerate(c) for c in reported):
+        tot = {k: sum(specs[c][k] for c in reported) for k in ("variants", "unphased", "singletons", "heterozygous_variants",
+                                                               "heterozygous_snvs", "phased_snvs")}
+        exp = spec_columns(tot, sorted(x for c in reported for x in specs[c]["sizes"]),
+                           sorted(x for c in reported for x in specs[c]["lengths"]))
+        for k, want in exp.items():
+            if not same(fnum(all_rows[0][k]), float(want)):
+                fail(f"ALL.{k} = {all_rows[0][k]}, computed independently over the reported chromosomes {reported} of the file: "
+                     f"{want}", column_key(k, True))
+        spans = [set((a, b) for _, a, b, n in specs[c]["block_list"] if n > 1) for c in reported]
+        ctx.dist("coordinate_identical_blocks_on_two_chromosomes",
+                 any(spans[i] & spans[j] for i in range(len(spans)) for j in range(i)))
     # ---- the human-readable report says the same as the TSV
     sections = parse_stdout(res["out"])
     if [n for n, _ in sections] != [r["chromosome"] for r in res["tsv"]]:
@@ -529,6 +607,113 @@ def judge(ctx, case, res):
     if len(ctx.samples) < 3 and nontrivial and len(case["records"]) <= 8:
         ctx.sample({"records": [[r["chrom"], r["pos"], r["ref"], r["alts"], r["format"], r["calls"]] for r in case["records"]],
                     "tsv": {r["chromosome"]: {k: r[k] for k in INT_FIELDS} for r in res["tsv"]}, "block_list": res["bl"]})
+
+
+# ------------------------------------------------------------------------------------------------
+# multi-sample files through the whole-file reader (`c12.file` = run_stats on top of C09File.readFile)
+# ------------------------------------------------------------------------------------------------
+
+def file_cases(ctx, wd, cases=None):
+    """`whatshap stats` (CLI) on the phase files of the C09 file generator (1-3 samples with an encoding each, encodings per
+    contig / per sample, ploidy changes, malformed HP, split contigs, unsorted pairs) against `c12.file`: sample selection
+    (default, --sample, a sample the file lacks), the reader's errors as the outcome of the run (whichever sample causes them),
+    --chromosome / --only-snvs, every TSV field, block list, GTF"""
+    from harness.gen.c09_file import gen_file_case, build_file
+    from harness.gen import c09_fileops as F
+    from harness.gen import c04_records as R
+    rng = ctx.rng
+    if cases is None:
+        cases = [c for _, c in ctx.corpus() if c.get("file_stats")]
+        for _ in range((40 if ctx.quick else 400) * ctx.scale):
+            c = gen_file_case(rng, ctx.quick)
+            c["file_stats"] = {"which": rng.randrange(2), "sample": rng.choice([None, None, "first", "last", "S9", ""]),
+                               "chromosomes": rng.choice([[], [], [], ["chr1"], ["chr2"], ["chr2,chr1"], ["chr3", "chr1"]])}
+            cases.append(c)
+    jobs = []
+    for n, case in enumerate(cases):
+        d = os.path.join(wd, f"f{n}")
+        shutil.rmtree(d, ignore_errors=True)
+        b = build_file(case, d)
+        o = case["file_stats"]
+        P = b["P"][o["which"] % len(b["P"])]
+        _, samples, recs = R.load_vcf(P)
+        sample = {None: None, "first": samples[0] if samples else None, "last": samples[-1] if samples else None}.get(o["sample"], o["sample"])
+        verb = pysam.set_verbosity(0)          # htslib warns about PQ declared as Float: expected here
+        try:
+            with pysam.VariantFile(P) as vf:
+                contigs = [(c.name, c.length) for c in vf.header.contigs.values()]
+        finally:
+            pysam.set_verbosity(verb)
+        req = {"op": "c12.file", "fixMissing": True, "fixPs": True, "dedupGiven": True, "onlySnvs": case["only_snvs"],
+               "blockList": True, "indexed": False, "contigs": [c for c, _ in contigs],
+               "lens": [[c, l] for c, l in contigs if l is not None], "given": list(o["chromosomes"]), "samples": samples,
+               "sample": sample, "groups": F.groups_of(recs, samples)}
+        jobs.append((case, d, P, sample, req))
+
+    def execute(job):
+        case, d, P, sample, _ = job
+        tsv, bl, gtf = (os.path.join(d, n) for n in ("out.tsv", "out.blocks", "out.gtf"))
+        args = ["stats", "--tsv", tsv, "--block-list", bl, "--gtf", gtf] + (["--only-snvs"] if case["only_snvs"] else [])
+        for c in case["file_stats"]["chromosomes"]:
+            args += ["--chromosome", c]
+        if sample is not None:
+            args += ["--sample", sample]
+        rc, out, err, _ = sim.whatshap(args + [P], ctx.overlay)
+        res = {"rc": rc, "err": err, "out": out, "tsv": parse_tsv(tsv), "bl": parse_block_list(bl), "gtf": parse_gtf(gtf)}
+        shutil.rmtree(d, ignore_errors=True)
+        return res
+
+    with concurrent.futures.ThreadPoolExecutor(WORKERS) as pool:
+        results = list(pool.map(execute, jobs))
+    answers = ctx.model.ask_many([j[4] for j in jobs])
+    for (case, _, _, sample, req), res, ans in zip(jobs, results, answers):
+        ctx.evaluated()
+        if "error" in ans:
+            ctx.disagree("c12.file", case, "input not accepted by the driver", ans)
+            continue
+        ctx.dist("file_stats_samples", len(req["samples"]))
+        ctx.dist("file_stats_sample_option", "default" if not sample else ("given" if sample in req["samples"] else "unknown"))
+        if "err" in ans:
+            want = ans["err"]
+            ctx.dist("file_stats_outcome", want)
+            if want in ("sample-not-found", "no-sample"):
+                got = want if (res["rc"] == 0 and res["tsv"] is None and ("not found" in res["err"] or "not contain any sample" in res["err"])) else {"rc": res["rc"], "tsv": res["tsv"]}
+            elif res["rc"] == 0:
+                got = "ok"
+            elif "_extract_HP_phase" in res["err"]:
+                got = "hpFormat"
+            else:
+                got = err_class(res["err"])
+            if got != want:
+                ctx.disagree("c12.file (outcome)", case, got, want)
+            continue
+        ctx.dist("file_stats_outcome", "ok")
+        if res["rc"] != 0:
+            ctx.disagree("c12.file (outcome)", case, "hpFormat" if "_extract_HP_phase" in res["err"] else err_class(res["err"]), "ok")
+            continue
+        if res["tsv"] is None or res["bl"] is None or res["gtf"] is None:
+            ctx.fail("an output file was not written", case, key="output-missing")
+            continue
+        d = diff_model(ans, res)
+        if d is not None:
+            ctx.disagree("c12.file", case, d, "see implementation")
+        big = False
+        for r in res["tsv"]:
+            v = {k: int(r[k]) for k in INT_FIELDS}
+            big |= v["blocks"] > 0
+            if v["phased"] + v["unphased"] + v["singletons"] != v["heterozygous_variants"]:
+                ctx.fail(f"{r['chromosome']}: phased + unphased + singletons != heterozygous", case, key="sum-identity")
+            if v["variant_per_block_sum"] != v["phased"]:
+                ctx.fail(f"{r['chromosome']}: sum of block sizes != phased", case, key="block-sizes-sum")
+        alls = [r for r in res["tsv"] if r["chromosome"] == "ALL"]
+        if alls:
+            for k in INT_FIELDS:
+                tot = sum(int(r[k]) for r in res["tsv"] if r["chromosome"] != "ALL")
+                if int(alls[0][k]) != tot:
+                    ctx.fail(f"ALL.{k} = {alls[0][k]} != sum of the chromosome rows {tot}", case, key="all-row-not-sum")
+        if big:
+            ctx.nontrivial(json.dumps(case, sort_keys=True))
+        ctx.validated()
 
 
 # ------------------------------------------------------------------------------------------------
